@@ -730,6 +730,21 @@ func (st *Runtime) evalPrimaryExpressionGroup(node Expression) reflect.Value {
 			length = baseExpression.Len()
 		}
 
+		switch baseExpression.Kind() {
+		case reflect.Array, reflect.Slice, reflect.String:
+		default:
+			node.errorf("cannot slice %s", getTypeString(baseExpression))
+		}
+		if baseExpression.Kind() == reflect.Array && !baseExpression.CanAddr() {
+			// reflect can only slice addressable arrays
+			array := reflect.New(baseExpression.Type()).Elem()
+			array.Set(baseExpression)
+			baseExpression = array
+		}
+		if index < 0 || length < index || length > baseExpression.Len() {
+			node.errorf("slice bounds out of range [%d:%d] with length %d", index, length, baseExpression.Len())
+		}
+
 		return baseExpression.Slice(index, length)
 	}
 	return st.evalBaseExpressionGroup(node)
